@@ -1,1290 +1,50 @@
 // C05 evaluated THROUGH the real node.NewNode / Node.Start / Node.Stop (TestNodeRestartCrashPoints).
 //
-// verif/pnode replicates what node.NewNode does; nothing of node/node.go's own start-up orchestration (opening the
-// databases, genesis document handling, handshake, the reload of the state after the handshake, the fast-sync /
-// state-sync switches, the construction order of mempool / evidence pool / block executor / blockchain reactor /
-// consensus state, the OnStart order) is exercised there. Here every incarnation of the node is built with
-// node.NewNode over
-//
-//   - crash-point databases: the "disk" is a set of MemDBs that outlive the node object (the crash model of
-//     lib.CrashDB: what was written before the crash point is there, nothing after it; batches are atomic);
-//     each incarnation reaches them through its own gate (nodeInc): every mutation (and every call on the consensus
-//     connection of the application) is one persistence operation, counted and labelled; the k-th one is the crash;
-//   - an in-process recording application (lib.ScriptApp) that outlives the node (it is another process), reached
-//     through the same gate;
-//   - FilePV, node key, WAL in a home directory of its own per incarnation (the successor gets a copy taken when the
-//     dead incarnation has come to rest), on /dev/shm when there is one.
-//
-// Crash model. At the armed operation the incarnation is marked dead under the gate's lock; neither that operation
-// nor any later gated operation of the incarnation is applied, and a dead incarnation cannot read the disk either.
-// What happens to the goroutine that ran into the gate depends on who it is (runtime.Stack): the consensus receive
-// routine and the harness goroutine that runs NewNode/Start panic with a crashSignal (tendermint's own recover in
-// receiveRoutine / the harness's recover catch it); the indexer goroutine gets an error (it logs and goes on); any
-// other goroutine is parked for good (counted). Since every goroutine of the dead incarnation is stopped BEFORE an
-// operation of its own, the surviving state (disk + application + files) is a state the real process can be in
-// when it is killed: each goroutine has executed a prefix of its program. The node object is then stopped as far
-// as that is possible without hanging and thrown away; a new node is built with NewNode on the same disk, the same
-// application and the copied files.
-//
-// Oracles (the C05 statement, nothing more): after any crash NewNode and Start succeed; right after NewNode (the
-// handshake has run, nothing else is running yet) saved state, block store and application agree on height and
-// application hash; the node then commits at least two further heights; the application's journal obeys the
-// grammar (pnode.CheckAppJournal). The only wall-clock signal is the progress deadline (tens of seconds where
-// milliseconds are normal); a miss is a violation only if a calibration run (a fresh node on a fresh chain) shows
-// that the machine is not stalled and a further full deadline does not help either; else it is VERIF-INFRA.
+// The engine (scenario generation, per-incarnation gate in front of the surviving databases and application, crash
+// and abandon, restart oracles, progress deadline with stall calibration) lives in verif/nnode; read its package
+// comment. This file is the C05 test over it: a scenario x a crash index drawn uniformly over the persistence
+// operations of an uncrashed dry run x optionally a second crash during recovery; oracles = the C05 statement.
 package c05
 
 import (
-	"bytes"
-	"errors"
 	"fmt"
-	"io"
 	"os"
-	"path/filepath"
 	"runtime"
-	"runtime/debug"
-	"strconv"
 	"strings"
-	"sync"
-	"sync/atomic"
 	"testing"
-	"time"
 
-	dbm "github.com/tendermint/tm-db"
 	"pgregory.net/rapid"
 
-	abci "github.com/tendermint/tendermint/abci/types"
-	cfg "github.com/tendermint/tendermint/config"
-	"github.com/tendermint/tendermint/consensus"
-	"github.com/tendermint/tendermint/libs/log"
-	mempl "github.com/tendermint/tendermint/mempool"
-	"github.com/tendermint/tendermint/node"
-	"github.com/tendermint/tendermint/p2p"
-	"github.com/tendermint/tendermint/privval"
-	"github.com/tendermint/tendermint/proxy"
-	sm "github.com/tendermint/tendermint/state"
-	"github.com/tendermint/tendermint/store"
-	"github.com/tendermint/tendermint/types"
-
 	"verif/lib"
-	"verif/pnode"
+	"verif/nnode"
 )
 
 const nodeTest = "TestNodeRestartCrashPoints"
-
-// generous deadlines (normal: milliseconds)
-const (
-	nodeBootDeadline     = 40 * time.Second
-	nodeProgressDeadline = 30 * time.Second
-	nodeStopDeadline     = 40 * time.Second
-	nodeCalibrationLimit = 3 * time.Second // a fresh node needs ~50 ms for what the calibration run does
-	nodeStallGap         = 2 * time.Second // a 5 ms sleep that takes this long = the machine is stalled
-)
-
-// ---------------------------------------------------------------------------------------------------------------
-// scratch space (WAL fsyncs cost microseconds on a memory-backed file system)
-
-const nodeScratchPrefix = "verif-c05node-p"
-
-var (
-	nodeScratchOnce sync.Once
-	nodeScratchRoot string
-)
-
-func nodeScratch() string {
-	nodeScratchOnce.Do(func() {
-		for _, base := range []string{"/dev/shm", os.TempDir()} { // sweep the roots of killed processes
-			ents, err := os.ReadDir(base)
-			if err != nil {
-				continue
-			}
-			for _, e := range ents {
-				if !strings.HasPrefix(e.Name(), nodeScratchPrefix) {
-					continue
-				}
-				pid, err := strconv.Atoi(strings.TrimPrefix(e.Name(), nodeScratchPrefix))
-				if err != nil || pid == os.Getpid() {
-					continue
-				}
-				if _, err := os.Stat(fmt.Sprintf("/proc/%d", pid)); os.IsNotExist(err) {
-					os.RemoveAll(filepath.Join(base, e.Name()))
-				}
-			}
-		}
-		base := os.TempDir()
-		if st, err := os.Stat("/dev/shm"); err == nil && st.IsDir() {
-			base = "/dev/shm"
-		}
-		nodeScratchRoot = filepath.Join(base, fmt.Sprintf("%s%d", nodeScratchPrefix, os.Getpid()))
-		if err := os.MkdirAll(nodeScratchRoot, 0o700); err != nil {
-			nodeScratchRoot, _ = os.MkdirTemp("", nodeScratchPrefix)
-		}
-	})
-	return nodeScratchRoot
-}
-
-// ---------------------------------------------------------------------------------------------------------------
-// stall detector: the longest time a 5 ms sleep took (the progress deadline is only trusted on a machine that runs)
-
-var (
-	nodeHeartOnce sync.Once
-	nodeHeartGap  int64 // max observed gap in ns since the last reset
-)
-
-func nodeHeartStart() {
-	nodeHeartOnce.Do(func() {
-		go func() {
-			for {
-				t0 := time.Now()
-				time.Sleep(5 * time.Millisecond)
-				if d := int64(time.Since(t0)); d > atomic.LoadInt64(&nodeHeartGap) {
-					atomic.StoreInt64(&nodeHeartGap, d)
-				}
-			}
-		}()
-	})
-}
-
-func nodeHeartReset() { atomic.StoreInt64(&nodeHeartGap, 0) }
-func nodeHeartMax() time.Duration {
-	return time.Duration(atomic.LoadInt64(&nodeHeartGap))
-}
-
-// ---------------------------------------------------------------------------------------------------------------
-// scenario
-
-type nodeScenario struct {
-	Heights   int              // heights the first incarnation is to commit (relative: 1 = the first block)
-	Initial   int64            // genesis initial height
-	Txs       map[int][]string // relative height -> transactions submitted once the previous block is stored
-	ValChange string           // "", "self-power", "add-validator"
-	ValAt     int              // relative height whose EndBlock carries the validator update
-	ParamAt   int              // relative height whose EndBlock carries a consensus-parameter update (0 = never)
-	Mempool   string           // "v0" | "v1"
-	FastSync  bool             // config fast_sync = true (the node must find out by itself that it is the only validator)
-	Indexer   string           // "kv" | "null"
-	GenTime   time.Time
-}
-
-func (sc nodeScenario) off(rel int) int64 { return int64(rel) + sc.Initial - 1 }
-
-func (sc nodeScenario) String() string {
-	var txs []string
-	for r := 1; r <= sc.Heights+3; r++ {
-		txs = append(txs, fmt.Sprintf("%d:%q", r, sc.Txs[r]))
-	}
-	return fmt.Sprintf("{heights=%d initial=%d val=%s@%d param@%d mempool=%s fast_sync=%v indexer=%s txs=[%s]}",
-		sc.Heights, sc.Initial, sc.ValChange, sc.ValAt, sc.ParamAt, sc.Mempool, sc.FastSync, sc.Indexer, strings.Join(txs, " "))
-}
-
-func genNodeScenario(t *rapid.T) nodeScenario {
-	sc := nodeScenario{Heights: rapid.SampledFrom([]int{2, 3, 4, 5}).Draw(t, "heights"), Initial: 1, Txs: map[int][]string{}}
-	if rapid.IntRange(0, 3).Draw(t, "initialHeight") == 0 {
-		sc.Initial = int64(rapid.IntRange(2, 60).Draw(t, "initial"))
-	}
-	for r := 1; r <= sc.Heights+3; r++ {
-		n := rapid.IntRange(0, 3).Draw(t, "ntx")
-		for j := 0; j < n; j++ {
-			tx := fmt.Sprintf("tx-%d-%d-%s", r, j, rapid.StringMatching("[a-z]{0,10}").Draw(t, "txbody"))
-			if rapid.IntRange(0, 4).Draw(t, "rejected") == 0 {
-				tx = "!" + tx // the application answers DeliverTx with a non-zero code
-			}
-			sc.Txs[r] = append(sc.Txs[r], tx)
-		}
-	}
-	sc.ValChange = rapid.SampledFrom([]string{"", "", "self-power", "add-validator"}).Draw(t, "valChange")
-	if sc.ValChange != "" {
-		sc.ValAt = rapid.IntRange(1, sc.Heights).Draw(t, "valAt")
-	}
-	sc.ParamAt = rapid.IntRange(0, sc.Heights).Draw(t, "paramAt")
-	sc.Mempool = rapid.SampledFrom([]string{cfg.MempoolV0, cfg.MempoolV1}).Draw(t, "mempool")
-	sc.Indexer = rapid.SampledFrom([]string{"kv", "kv", "kv", "null"}).Draw(t, "indexer")
-	if sc.ValChange != "add-validator" {
-		// with a second validator and fast_sync = true a restarted node waits for peers (by design): not generated
-		sc.FastSync = rapid.Bool().Draw(t, "fastSyncConfig")
-	}
-	sc.GenTime = time.Now().Add(-time.Hour).UTC()
-	return sc
-}
-
-// ---------------------------------------------------------------------------------------------------------------
-// the world that outlives node objects
-
-type nodeWorld struct {
-	sc     nodeScenario
-	root   string
-	disk   map[string]*dbm.MemDB // by DBContext.ID: what is "on disk"; outlives every node object
-	diskMu sync.Mutex
-	app    *lib.ScriptApp
-	gen    *types.GenesisDoc
-	fed    map[int]bool
-	incs   []*nodeInc
-	parked int32 // goroutines of dead incarnations parked for good
-	trace  []string
-}
-
-func newNodeWorld(sc nodeScenario) (*nodeWorld, error) {
-	root, err := os.MkdirTemp(nodeScratch(), "case")
-	if err != nil {
-		return nil, err
-	}
-	w := &nodeWorld{sc: sc, root: root, disk: map[string]*dbm.MemDB{}, app: lib.NewScriptApp(), fed: map[int]bool{}}
-	pk := lib.Key(0).PubKey()
-	w.gen = &types.GenesisDoc{GenesisTime: sc.GenTime, ChainID: "c05-node-chain", InitialHeight: sc.Initial,
-		ConsensusParams: types.DefaultConsensusParams(),
-		Validators:      []types.GenesisValidator{{Address: pk.Address(), PubKey: pk, Power: 10, Name: "v0"}}}
-	if err := w.gen.ValidateAndComplete(); err != nil {
-		return nil, err
-	}
-	plan := func(rel int) *lib.HeightPlan {
-		pl := w.app.Plans[sc.off(rel)]
-		if pl == nil {
-			pl = &lib.HeightPlan{}
-			w.app.Plans[sc.off(rel)] = pl
-		}
-		return pl
-	}
-	switch sc.ValChange {
-	case "self-power":
-		plan(sc.ValAt).ValUpdates = []lib.ValUpdate{{Key: 0, Power: 17}}
-	case "add-validator":
-		plan(sc.ValAt).ValUpdates = []lib.ValUpdate{{Key: 1, Power: 1}} // never votes; the node keeps more than 2/3
-	}
-	if sc.ParamAt > 0 {
-		plan(sc.ParamAt).Params = &abci.ConsensusParams{Block: &abci.BlockParams{MaxBytes: 1 << 20, MaxGas: 1000 + int64(sc.ParamAt)}}
-	}
-	home := w.home(0)
-	for _, d := range []string{"config", "data"} {
-		if err := os.MkdirAll(filepath.Join(home, d), 0o700); err != nil {
-			return nil, err
-		}
-	}
-	c := w.config(home)
-	privval.NewFilePV(lib.Key(0), c.PrivValidatorKeyFile(), c.PrivValidatorStateFile()).Save()
-	return w, nil
-}
-
-// cleanup ends a case: every incarnation is dead by now; what leaked goroutines of hung stops keep reachable is
-// emptied (they can no longer pass their gates).
-func (w *nodeWorld) cleanup() {
-	for _, inc := range w.incs {
-		inc.kill()
-	}
-	os.RemoveAll(w.root)
-	w.diskMu.Lock()
-	for _, d := range w.disk {
-		var keys [][]byte
-		if it, err := d.Iterator(nil, nil); err == nil {
-			for ; it.Valid(); it.Next() {
-				keys = append(keys, it.Key())
-			}
-			it.Close()
-		}
-		for _, k := range keys {
-			d.Delete(k) //nolint
-		}
-	}
-	w.diskMu.Unlock()
-	w.app.Mu.Lock()
-	w.app.Journal, w.app.Plans, w.app.Hist = nil, map[int64]*lib.HeightPlan{}, nil
-	w.app.Mu.Unlock()
-}
-
-func (w *nodeWorld) home(i int) string { return filepath.Join(w.root, fmt.Sprintf("inc%d", i)) }
-
-func (w *nodeWorld) config(home string) *cfg.Config {
-	c := cfg.TestConfig() // short consensus timeouts, memdb backend (unused: the DBProvider is ours)
-	c.SetRoot(home)
-	c.P2P.ListenAddress = "tcp://127.0.0.1:0" // loopback, ephemeral port, no peers
-	c.P2P.PexReactor = false
-	c.P2P.UPNP = false
-	c.RPC.ListenAddress = ""
-	c.RPC.GRPCListenAddress = ""
-	c.FastSyncMode = w.sc.FastSync
-	c.StateSync.Enable = false
-	c.Mempool.Version = w.sc.Mempool
-	c.Mempool.CacheSize = 200 // the default 10000-entry cache is allocated up front; node objects of hung stops stay reachable
-	c.Mempool.Size = 200
-	c.Consensus.CreateEmptyBlocks = true
-	c.Consensus.CreateEmptyBlocksInterval = 0
-	c.TxIndex.Indexer = w.sc.Indexer
-	c.Instrumentation.Prometheus = false
-	return c
-}
-
-func (w *nodeWorld) diskDB(id string) *dbm.MemDB {
-	w.diskMu.Lock()
-	defer w.diskMu.Unlock()
-	d, ok := w.disk[id]
-	if !ok {
-		d = dbm.NewMemDB()
-		w.disk[id] = d
-	}
-	return d
-}
-
-func (w *nodeWorld) tracef(format string, a ...interface{}) {
-	if len(w.trace) < 400 {
-		w.trace = append(w.trace, fmt.Sprintf(format, a...))
-	}
-}
-
-// copyHome gives incarnation `to` a copy of the files of incarnation `from` (key, sign state, WAL).
-func (w *nodeWorld) copyHome(from, to int) error {
-	src, dst := w.home(from), w.home(to)
-	return filepath.Walk(src, func(p string, fi os.FileInfo, err error) error {
-		if err != nil {
-			if os.IsNotExist(err) {
-				return nil // a temp file of an atomic replace that went away
-			}
-			return err
-		}
-		rel, _ := filepath.Rel(src, p)
-		if fi.IsDir() {
-			return os.MkdirAll(filepath.Join(dst, rel), 0o700)
-		}
-		if !fi.Mode().IsRegular() {
-			return nil
-		}
-		in, err := os.Open(p)
-		if err != nil {
-			if os.IsNotExist(err) {
-				return nil
-			}
-			return err
-		}
-		defer in.Close()
-		out, err := os.OpenFile(filepath.Join(dst, rel), os.O_CREATE|os.O_TRUNC|os.O_WRONLY, 0o600)
-		if err != nil {
-			return err
-		}
-		defer out.Close()
-		_, err = io.Copy(out, in)
-		return err
-	})
-}
-
-// cursors reads the three persisted cursors straight from the disk and the application.
-type nodeCursors struct {
-	State, Store, App  int64
-	StateHash, AppHash []byte
-	Err                string
-}
-
-func (c nodeCursors) String() string {
-	if c.Err != "" {
-		return c.Err
-	}
-	return fmt.Sprintf("state=%d store=%d app=%d", c.State, c.Store, c.App)
-}
-
-func (w *nodeWorld) cursors() nodeCursors {
-	var c nodeCursors
-	st, err := sm.NewStore(w.diskDB("state"), sm.StoreOptions{}).Load()
-	if err != nil {
-		c.Err = fmt.Sprintf("state store cannot be loaded: %v", err)
-		return c
-	}
-	c.State, c.StateHash = st.LastBlockHeight, st.AppHash
-	c.Store = store.NewBlockStore(w.diskDB("blockstore")).Height()
-	w.app.Mu.Lock()
-	c.App, c.AppHash = w.app.Height, append([]byte(nil), w.app.AppHash...)
-	w.app.Mu.Unlock()
-	return c
-}
-
-// agree is the cursor oracle: "saved state, block store and application agree on height and application hash".
-func (c nodeCursors) agree() string {
-	if c.Err != "" {
-		return c.Err
-	}
-	if c.State != c.Store || c.State != c.App {
-		return fmt.Sprintf("heights disagree: saved state %d, block store %d, application %d", c.State, c.Store, c.App)
-	}
-	if c.App > 0 && !bytes.Equal(c.StateHash, c.AppHash) {
-		return fmt.Sprintf("application hash disagrees at height %d: saved state %X, application %X", c.App, c.StateHash, c.AppHash)
-	}
-	return ""
-}
-
-// ---------------------------------------------------------------------------------------------------------------
-// one incarnation and its gate
-
-type crashSignal struct {
-	Inc   int
-	Index int
-	Label string
-	After bool // a gated operation attempted after the crash
-}
-
-func (c crashSignal) Error() string { return c.String() }
-func (c crashSignal) String() string {
-	if c.After {
-		return fmt.Sprintf("incarnation %d is dead (crashed at op %d): %s not performed", c.Inc, c.Index, c.Label)
-	}
-	return fmt.Sprintf("injected crash of incarnation %d before op %d (%s)", c.Inc, c.Index, c.Label)
-}
-
-var errNodeDead = errors.New("c05: write by a dead incarnation dropped")
-
-type nodeInc struct {
-	w         *nodeWorld
-	id        int
-	mu        sync.Mutex // the gate: held while a gated operation is applied
-	dead      bool
-	deadFlag  int32 // atomic copy of dead for readers
-	n         int
-	labels    []string
-	armAt     int
-	hit       *crashSignal
-	hitDB     string
-	hitOn     string // which goroutine ran into the crash point
-	crashedCh chan struct{}
-	stage     atomic.Value // "NewNode" | "Start" | "running"
-	logMu     sync.Mutex
-	errLines  []string
-	failure   string // a CONSENSUS FAILURE that is not ours
-	infoSeen  map[string]int
-}
-
-func (w *nodeWorld) newInc(armAt int) *nodeInc {
-	inc := &nodeInc{w: w, id: len(w.incs), armAt: armAt, crashedCh: make(chan struct{}), infoSeen: map[string]int{}}
-	inc.stage.Store("NewNode")
-	w.incs = append(w.incs, inc)
-	return inc
-}
-
-const (
-	grOwn = iota
-	grConsensus
-	grIndexer
-	grUnknown
-)
-
-func goroutineKind() (int, string) {
-	buf := make([]byte, 128<<10)
-	s := string(buf[:runtime.Stack(buf, false)])
-	switch {
-	case strings.Contains(s, "c05.(*nodeInc).bootRoutine"):
-		return grOwn, "boot"
-	case strings.Contains(s, "consensus.(*State).receiveRoutine"):
-		return grConsensus, "consensus"
-	case strings.Contains(s, "txindex.(*IndexerService).OnStart"):
-		return grIndexer, "indexer"
-	}
-	return grUnknown, "other"
-}
-
-// dispose ends the current goroutine's part in a dead incarnation.
-func (inc *nodeInc) dispose(sig crashSignal) error {
-	kind, _ := goroutineKind()
-	switch kind {
-	case grOwn, grConsensus:
-		panic(sig) // recovered by bootRoutine / by receiveRoutine's own handler
-	case grIndexer:
-		return errNodeDead // logged by the indexer service, which then waits for events that never come
-	}
-	atomic.AddInt32(&inc.w.parked, 1)
-	select {} // nobody recovers for this goroutine: it stays where a killed process leaves it
-}
-
-// gate runs one gated operation. counted: it is a persistence operation (a crash point).
-func (inc *nodeInc) gate(db, label string, counted bool, apply func() error) error {
-	inc.mu.Lock()
-	if inc.dead {
-		sig := crashSignal{Inc: inc.id, Index: inc.hit.Index, Label: db + "." + label, After: true}
-		inc.mu.Unlock()
-		return inc.dispose(sig)
-	}
-	if counted {
-		idx := inc.n
-		inc.n++
-		inc.labels = append(inc.labels, db+"."+label)
-		if idx == inc.armAt {
-			sig := crashSignal{Inc: inc.id, Index: idx, Label: db + "." + label}
-			inc.dead = true
-			atomic.StoreInt32(&inc.deadFlag, 1)
-			inc.hit, inc.hitDB = &sig, db
-			_, inc.hitOn = goroutineKind()
-			close(inc.crashedCh)
-			inc.mu.Unlock()
-			return inc.dispose(sig)
-		}
-	}
-	err := apply()
-	inc.mu.Unlock()
-	return err
-}
-
-// kill marks the incarnation dead without a crash point (after a clean Stop: stragglers must not write either).
-func (inc *nodeInc) kill() {
-	inc.mu.Lock()
-	if !inc.dead {
-		inc.dead = true
-		atomic.StoreInt32(&inc.deadFlag, 1)
-		inc.hit = &crashSignal{Inc: inc.id, Index: inc.n, Label: "stopped"}
-	}
-	inc.mu.Unlock()
-}
-
-func (inc *nodeInc) ops() int { inc.mu.Lock(); defer inc.mu.Unlock(); return inc.n }
-
-func (inc *nodeInc) isDead() bool { return atomic.LoadInt32(&inc.deadFlag) == 1 }
-
-// read is the gate for reads: a dead process reads nothing.
-func (inc *nodeInc) read(db string) {
-	if inc.isDead() {
-		inc.mu.Lock()
-		sig := crashSignal{Inc: inc.id, Index: inc.hit.Index, Label: db + ".read", After: true}
-		inc.mu.Unlock()
-		if kind, _ := goroutineKind(); kind == grIndexer {
-			return // cannot hand an error to every reader; the indexer only writes
-		}
-		inc.dispose(sig) //nolint
-	}
-}
-
-// ---- database gate
-
-func keyClass(k []byte) string {
-	s := string(k)
-	if i := strings.IndexByte(s, ':'); i >= 0 && i <= 24 {
-		s = s[:i+1]
-	} else if len(s) > 24 {
-		return "<key>"
-	}
-	for _, r := range s {
-		if r < 0x20 || r > 0x7e {
-			return "<key>"
-		}
-	}
-	return s
-}
-
-type gateDB struct {
-	inc  *nodeInc
-	name string
-	disk *dbm.MemDB
-}
-
-var _ dbm.DB = (*gateDB)(nil)
-
-func (d *gateDB) Get(k []byte) ([]byte, error) { d.inc.read(d.name); return d.disk.Get(k) }
-func (d *gateDB) Has(k []byte) (bool, error)   { d.inc.read(d.name); return d.disk.Has(k) }
-func (d *gateDB) Iterator(a, b []byte) (dbm.Iterator, error) {
-	d.inc.read(d.name)
-	return d.disk.Iterator(a, b)
-}
-func (d *gateDB) ReverseIterator(a, b []byte) (dbm.Iterator, error) {
-	d.inc.read(d.name)
-	return d.disk.ReverseIterator(a, b)
-}
-func (d *gateDB) Close() error             { return nil } // the disk outlives the node
-func (d *gateDB) Print() error             { return nil }
-func (d *gateDB) Stats() map[string]string { return nil }
-
-func (d *gateDB) label(kind string, k []byte) string {
-	if d.name == "tx_index" {
-		return kind
-	}
-	return kind + "(" + keyClass(k) + ")"
-}
-
-func cpb(b []byte) []byte { return append(make([]byte, 0, len(b)), b...) }
-
-func (d *gateDB) Set(k, v []byte) error {
-	k, v = cpb(k), cpb(v) // the disk keeps its own copies (a MemDB stores the slices it is given)
-	return d.inc.gate(d.name, d.label("set", k), true, func() error { return d.disk.Set(k, v) })
-}
-func (d *gateDB) SetSync(k, v []byte) error {
-	k, v = cpb(k), cpb(v)
-	return d.inc.gate(d.name, d.label("setsync", k), true, func() error { return d.disk.SetSync(k, v) })
-}
-func (d *gateDB) Delete(k []byte) error {
-	return d.inc.gate(d.name, d.label("delete", k), true, func() error { return d.disk.Delete(k) })
-}
-func (d *gateDB) DeleteSync(k []byte) error {
-	return d.inc.gate(d.name, d.label("deletesync", k), true, func() error { return d.disk.DeleteSync(k) })
-}
-func (d *gateDB) NewBatch() dbm.Batch { return &gateBatch{d: d, b: d.disk.NewBatch()} }
-
-type gateBatch struct {
-	d     *gateDB
-	b     dbm.Batch
-	first []byte
-	n     int
-}
-
-func (b *gateBatch) Set(k, v []byte) error {
-	if b.n == 0 {
-		b.first = append([]byte(nil), k...)
-	}
-	b.n++
-	return b.b.Set(cpb(k), cpb(v))
-}
-func (b *gateBatch) Delete(k []byte) error {
-	if b.n == 0 {
-		b.first = append([]byte(nil), k...)
-	}
-	b.n++
-	return b.b.Delete(cpb(k))
-}
-func (b *gateBatch) Write() error {
-	return b.d.inc.gate(b.d.name, b.d.label("batch", b.first), true, func() error { return b.b.Write() })
-}
-func (b *gateBatch) WriteSync() error {
-	return b.d.inc.gate(b.d.name, b.d.label("batchsync", b.first), true, func() error { return b.b.WriteSync() })
-}
-func (b *gateBatch) Close() error { return b.b.Close() }
-
-// ---- application gate (the consensus connection; the mempool and query connections carry no state of the journal)
-
-type gateApp struct {
-	abci.Application // the surviving lib.ScriptApp
-	inc              *nodeInc
-}
-
-func (g *gateApp) Info(req abci.RequestInfo) (res abci.ResponseInfo) {
-	g.inc.gate("app", "Info", false, func() error { res = g.Application.Info(req); return nil }) //nolint
-	return
-}
-func (g *gateApp) InitChain(req abci.RequestInitChain) (res abci.ResponseInitChain) {
-	g.inc.gate("app", "InitChain", true, func() error { res = g.Application.InitChain(req); return nil }) //nolint
-	return
-}
-func (g *gateApp) BeginBlock(req abci.RequestBeginBlock) (res abci.ResponseBeginBlock) {
-	g.inc.gate("app", "BeginBlock", true, func() error { res = g.Application.BeginBlock(req); return nil }) //nolint
-	return
-}
-func (g *gateApp) DeliverTx(req abci.RequestDeliverTx) (res abci.ResponseDeliverTx) {
-	g.inc.gate("app", "DeliverTx", true, func() error { res = g.Application.DeliverTx(req); return nil }) //nolint
-	return
-}
-func (g *gateApp) EndBlock(req abci.RequestEndBlock) (res abci.ResponseEndBlock) {
-	g.inc.gate("app", "EndBlock", true, func() error { res = g.Application.EndBlock(req); return nil }) //nolint
-	return
-}
-func (g *gateApp) Commit() (res abci.ResponseCommit) {
-	g.inc.gate("app", "Commit", true, func() error { res = g.Application.Commit(); return nil }) //nolint
-	return
-}
-
-// ---- logger: keeps error lines of the living incarnation; spots a consensus failure that is not an injected crash
-
-type nodeLogger struct {
-	inc *nodeInc
-	mod string
-}
-
-func (l nodeLogger) Debug(string, ...interface{}) {}
-func (l nodeLogger) Info(msg string, _ ...interface{}) {
-	switch msg {
-	case "Replay last block using real app", "Replay last block using mock app", "Catchup by replaying consensus messages",
-		"WAL does not contain #ENDHEIGHT for the last stored block; writing it", "successful WAL repair":
-		l.inc.logMu.Lock()
-		l.inc.infoSeen[msg]++
-		l.inc.logMu.Unlock()
-	}
-	if strings.HasPrefix(msg, "Applying block") {
-		l.inc.logMu.Lock()
-		l.inc.infoSeen["Applying block"]++
-		l.inc.logMu.Unlock()
-	}
-}
-func (l nodeLogger) Error(msg string, kv ...interface{}) {
-	if l.inc.isDead() {
-		return // consequences of the injected crash
-	}
-	ours := false
-	line := l.mod + ": " + msg
-	for i := 0; i+1 < len(kv); i += 2 {
-		if k, ok := kv[i].(string); ok && k == "stack" {
-			continue
-		}
-		if _, ok := kv[i+1].(crashSignal); ok {
-			ours = true
-		}
-		line += fmt.Sprintf(" %v=%v", kv[i], kv[i+1])
-	}
-	if ours {
-		return
-	}
-	if len(line) > 700 {
-		line = line[:700]
-	}
-	l.inc.logMu.Lock()
-	if len(l.inc.errLines) < 40 {
-		l.inc.errLines = append(l.inc.errLines, line)
-	}
-	if msg == "CONSENSUS FAILURE!!!" && l.inc.failure == "" {
-		l.inc.failure = line
-	}
-	l.inc.logMu.Unlock()
-}
-func (l nodeLogger) With(kv ...interface{}) log.Logger {
-	for i := 0; i+1 < len(kv); i += 2 {
-		if k, ok := kv[i].(string); ok && k == "module" {
-			return nodeLogger{inc: l.inc, mod: fmt.Sprint(kv[i+1])}
-		}
-	}
-	return l
-}
-
-func (inc *nodeInc) errors() []string {
-	inc.logMu.Lock()
-	defer inc.logMu.Unlock()
-	return append([]string(nil), inc.errLines...)
-}
-
-func (inc *nodeInc) consensusFailure() string {
-	inc.logMu.Lock()
-	defer inc.logMu.Unlock()
-	return inc.failure
-}
-
-func (inc *nodeInc) seen(msg string) int {
-	inc.logMu.Lock()
-	defer inc.logMu.Unlock()
-	return inc.infoSeen[msg]
-}
-
-// ---- boot
-
-type nodeBoot struct {
-	node      *node.Node
-	err       error
-	panicked  string
-	crashed   bool
-	afterNew  nodeCursors // read between NewNode and Start
-	newNodeOK bool
-	startOK   bool
-}
-
-func (inc *nodeInc) bootRoutine(res *nodeBoot, done chan struct{}) {
-	defer close(done)
-	defer func() {
-		if r := recover(); r != nil {
-			if _, ok := r.(crashSignal); ok {
-				res.crashed = true
-				return
-			}
-			res.panicked = fmt.Sprintf("%v\n%s", r, debug.Stack())
-		}
-	}()
-	w := inc.w
-	c := w.config(w.home(inc.id))
-	pv := privval.LoadFilePV(c.PrivValidatorKeyFile(), c.PrivValidatorStateFile())
-	nodeKey := &p2p.NodeKey{PrivKey: lib.Key(300)}
-	dbProvider := func(ctx *node.DBContext) (dbm.DB, error) {
-		return &gateDB{inc: inc, name: ctx.ID, disk: w.diskDB(ctx.ID)}, nil
-	}
-	genProvider := func() (*types.GenesisDoc, error) { return w.gen, nil }
-	n, err := node.NewNode(c, pv, nodeKey, proxy.NewLocalClientCreator(&gateApp{Application: w.app, inc: inc}),
-		genProvider, dbProvider, node.DefaultMetricsProvider(c.Instrumentation), nodeLogger{inc: inc, mod: "node"})
-	if err != nil {
-		res.err = fmt.Errorf("NewNode: %w", err)
-		return
-	}
-	res.node, res.newNodeOK = n, true
-	res.afterNew = w.cursors()
-	inc.stage.Store("Start")
-	if err := n.Start(); err != nil {
-		res.err = fmt.Errorf("Node.Start: %w", err)
-		return
-	}
-	inc.stage.Store("running")
-	res.startOK = true
-}
-
-// stopNode calls Node.Stop and waits for it. Outcomes:
-//
-//	"stopped"  Node.Stop returned;
-//	"hung"     Node.Stop cannot return, for a reason that is known and permanent: either Node.Start had been
-//	           interrupted by an injected crash (startInterrupted: the consensus receive routine never started, the
-//	           consensus reactor's OnStop waits for it for ever), or the upstream shutdown deadlock happened: consensus
-//	           State.OnStop stops the timeout ticker while the receive routine is about to schedule a timeout; the
-//	           routine then blocks for ever on the ticker's unbuffered channel, never sees Quit, and Reactor.OnStop
-//	           waits for it (recognised from the goroutine dump: THIS node's receiveRoutine sits in
-//	           timeoutTicker.ScheduleTimeout [chan send] on two looks 250 ms apart while its State is stopped). Either
-//	           way nothing of the node will ever run again; what Node.Stop did not get to is closed by hand;
-//	"timeout"  anything else after nodeStopDeadline (infrastructure).
-//
-// Not part of C05 (the statement says nothing about shutting down); the hang is reported as a class.
-func stopNode(n *node.Node, startInterrupted bool) string {
-	stopped := make(chan struct{})
-	go func() {
-		defer close(stopped)
-		defer func() { recover() }() //nolint
-		n.Stop()                     //nolint
-	}()
-	outcome := "hung"
-	if startInterrupted {
-		time.Sleep(2 * time.Millisecond) // let Node.Stop get as far as it gets
-	} else {
-		t0, sightings := time.Now(), 0
-	WAIT:
-		for {
-			select {
-			case <-stopped:
-				outcome = "stopped"
-				break WAIT
-			case <-time.After(250 * time.Millisecond):
-			}
-			if !n.ConsensusState().IsRunning() && tickerDeadlock(n) {
-				if sightings++; sightings >= 2 {
-					break WAIT
-				}
-			} else {
-				sightings = 0
-			}
-			if time.Since(t0) > nodeStopDeadline {
-				return "timeout"
-			}
-		}
-	}
-	if outcome == "hung" {
-		func() {
-			defer func() { recover() }() //nolint
-			if w := n.ConsensusState().VerifWAL(); w != nil {
-				w.Stop() //nolint
-			}
-		}()
-		func() {
-			defer func() { recover() }() //nolint
-			n.VerifC05CloseTransport()   //nolint
-		}()
-	}
-	n.ProxyApp().Stop() //nolint
-	closeWALHead(n)
-	return outcome
-}
-
-// tickerDeadlock: is this node's consensus receive routine blocked sending to the (stopped) timeout ticker?
-func tickerDeadlock(n *node.Node) bool {
-	buf := make([]byte, 32<<20)
-	all := string(buf[:runtime.Stack(buf, true)])
-	me := fmt.Sprintf("consensus.(*State).receiveRoutine(%p,", n.ConsensusState())
-	for _, g := range strings.Split(all, "\n\n") {
-		if strings.Contains(g, me) {
-			return strings.Contains(g[:strings.IndexByte(g+"\n", '\n')], "[chan send") &&
-				strings.Contains(g, "consensus.(*timeoutTicker).ScheduleTimeout")
-		}
-	}
-	return false
-}
-
-// abandon stops what can be stopped of a dead incarnation's node object. Returns an infrastructure complaint.
-func (inc *nodeInc) abandon(n *node.Node, startInterrupted bool) string {
-	if n == nil {
-		return "" // died inside NewNode: nothing was handed out (its event bus and indexer goroutines stay behind)
-	}
-	if stopNode(n, startInterrupted) == "timeout" {
-		return fmt.Sprintf("Node.Stop of a crashed incarnation did not return within %v\n%s", nodeStopDeadline, nodeStacks())
-	}
-	return ""
-}
-
-// closeWALHead closes the WAL head file (BaseWAL.OnStop stops the group but leaves the head's close ticker running).
-func closeWALHead(n *node.Node) {
-	defer func() { recover() }() //nolint
-	if bw, ok := n.ConsensusState().VerifWAL().(*consensus.BaseWAL); ok {
-		bw.Group().Head.Close() //nolint
-	}
-}
-
-// ---------------------------------------------------------------------------------------------------------------
-// one case
-
-type nodeCaseResult struct {
-	Ops        int      // operations of the first incarnation when its target was reached (no crash) / at the crash
-	Labels     []string // their labels
-	Crashes    []crashSignal
-	CrashDBs   []string
-	CrashOn    []string
-	Classes    []string
-	Violation  string
-	Infra      string
-	NoCrash    bool
-	Restarts   int
-	Parked     int
-	JournalLen int
-	Trace      []string
-}
-
-func (r *nodeCaseResult) class(c string) { r.Classes = append(r.Classes, c) }
-
-// feed submits the transactions planned for the heights up to rel+1 (rel = relative height of the last stored block).
-func (w *nodeWorld) feed(n *node.Node, storeHeight int64) {
-	rel := 0
-	if storeHeight > 0 {
-		rel = int(storeHeight - w.sc.Initial + 1)
-	}
-	for r := 1; r <= rel+1 && r <= w.sc.Heights+3; r++ {
-		if w.fed[r] {
-			continue
-		}
-		w.fed[r] = true
-		for _, tx := range w.sc.Txs[r] {
-			n.Mempool().CheckTx(types.Tx(tx), nil, mempl.TxInfo{}) //nolint (a full or duplicate answer is fine)
-		}
-	}
-}
-
-type driveOutcome int
-
-const (
-	driveReached driveOutcome = iota
-	driveCrashed
-	driveFailed
-	driveTimeout
-)
-
-// drive lets the started node run until the saved state reaches target, the incarnation crashes, its consensus
-// routine dies by itself, or the deadline passes.
-func (w *nodeWorld) drive(inc *nodeInc, n *node.Node, target int64, deadline time.Duration) driveOutcome {
-	t0 := time.Now()
-	for i := 0; ; i++ {
-		select {
-		case <-inc.crashedCh:
-			return driveCrashed
-		default:
-		}
-		h := n.BlockStore().Height()
-		w.feed(n, h)
-		if h >= target {
-			if st, err := sm.NewStore(w.diskDB("state"), sm.StoreOptions{}).Load(); err == nil && st.LastBlockHeight >= target {
-				return driveReached
-			}
-		}
-		if inc.consensusFailure() != "" {
-			select {
-			case <-inc.crashedCh:
-				return driveCrashed
-			default:
-			}
-			return driveFailed
-		}
-		if i%64 == 0 && time.Since(t0) > deadline {
-			return driveTimeout
-		}
-		time.Sleep(200 * time.Microsecond)
-	}
-}
-
-// calibrate measures what the machine needs right now to boot a fresh node and commit two blocks.
-func nodeCalibrate() (time.Duration, error) {
-	sc := nodeScenario{Heights: 2, Initial: 1, Txs: map[int][]string{}, Mempool: cfg.MempoolV0, Indexer: "kv", GenTime: time.Now().Add(-time.Hour).UTC()}
-	w, err := newNodeWorld(sc)
-	if err != nil {
-		return 0, err
-	}
-	defer w.cleanup()
-	t0 := time.Now()
-	inc := w.newInc(-1)
-	res, done := &nodeBoot{}, make(chan struct{})
-	go inc.bootRoutine(res, done)
-	select {
-	case <-done:
-	case <-time.After(nodeBootDeadline):
-		return time.Since(t0), fmt.Errorf("calibration node did not start within %v", nodeBootDeadline)
-	}
-	if !res.startOK {
-		return time.Since(t0), fmt.Errorf("calibration node did not start: %v %s", res.err, res.panicked)
-	}
-	out := w.drive(inc, res.node, 2, nodeProgressDeadline)
-	d := time.Since(t0)
-	inc.kill()
-	inc.abandon(res.node, false)
-	if out != driveReached {
-		return d, fmt.Errorf("calibration node did not commit two blocks (outcome %d): %v", out, inc.errors())
-	}
-	return d, nil
-}
-
-// stalled decides after a deadline miss whether the machine (not the node) is to blame.
-func nodeStalled() (bool, string) {
-	if g := nodeHeartMax(); g > nodeStallGap {
-		return true, fmt.Sprintf("a 5 ms sleep took %v during the wait", g)
-	}
-	d, err := nodeCalibrate()
-	if err != nil {
-		return true, fmt.Sprintf("calibration failed: %v", err)
-	}
-	if d > nodeCalibrationLimit {
-		return true, fmt.Sprintf("calibration run (fresh node, two blocks) took %v", d)
-	}
-	return false, fmt.Sprintf("calibration run took %v, longest 5 ms sleep %v", d, nodeHeartMax())
-}
-
-// runNodeCase plays the scenario; arms[i] is the crash index of incarnation i (-1 / missing = none).
-// cleanRestart: if the first incarnation reaches its target without a crash, stop it cleanly and start it again.
-func runNodeCase(sc nodeScenario, arms []int, cleanRestart bool) *nodeCaseResult {
-	res := &nodeCaseResult{}
-	w, err := newNodeWorld(sc)
-	if err != nil {
-		res.Infra = err.Error()
-		return res
-	}
-	defer w.cleanup()
-	defer func() {
-		res.Trace = w.trace
-		res.Parked = int(atomic.LoadInt32(&w.parked))
-		res.JournalLen = len(w.app.Journal)
-	}()
-	fail := func(format string, a ...interface{}) {
-		if res.Violation == "" {
-			res.Violation = fmt.Sprintf(format, a...)
-		}
-	}
-	journal := func(when string) {
-		w.app.Mu.Lock()
-		v := pnode.CheckAppJournal(w.app, store.NewBlockStore(w.diskDB("blockstore")))
-		w.app.Mu.Unlock()
-		if v != "" {
-			fail("%s: %s", when, v)
-		}
-	}
-	history := func() string {
-		var l []string
-		for i, c := range res.Crashes {
-			l = append(l, fmt.Sprintf("#%d %s on the %s goroutine", i, c, res.CrashOn[i]))
-		}
-		if len(l) == 0 {
-			return "a clean stop"
-		}
-		return strings.Join(l, "; ")
-	}
-	maxInc := len(arms) + 2
-	restartKind := "" // why the current incarnation was started: "" first, "crash", "clean"
-	for i := 0; i < maxInc; i++ {
-		arm := -1
-		if i < len(arms) {
-			arm = arms[i]
-		}
-		before := w.cursors()
-		inc := w.newInc(arm)
-		boot, done := &nodeBoot{}, make(chan struct{})
-		nodeHeartReset()
-		go inc.bootRoutine(boot, done)
-		select {
-		case <-done:
-		case <-time.After(nodeBootDeadline):
-			if stalled, why := nodeStalled(); stalled {
-				res.Infra = fmt.Sprintf("incarnation %d did not finish %v within %v and the machine is stalled: %s", i, inc.stage.Load(), nodeBootDeadline, why)
-			} else {
-				fail("after %s incarnation %d hangs in %v (no return within %v; %s); cursors before: %v; log: %v", history(), i, inc.stage.Load(), nodeBootDeadline, why, before, inc.errors())
-			}
-			inc.kill()
-			return res
-		}
-		w.tracef("inc%d (%s) cursors before boot: %v; NewNode ok=%v (cursors then: %v) Start ok=%v crashed=%v err=%v", i, restartKind, before, boot.newNodeOK, boot.afterNew, boot.startOK, boot.crashed, boot.err)
-		if i > 0 {
-			res.Restarts++
-			rel := func(h int64) int64 { // heights relative to the chain's first block (1 = first block, 0 = none)
-				if h == 0 {
-					return 0
-				}
-				return h - sc.Initial + 1
-			}
-			res.class(fmt.Sprintf("restart-after-%s: store-state=%d store-app=%d", restartKind, rel(before.Store)-rel(before.State), rel(before.Store)-rel(before.App)))
-			if before.State == 0 {
-				res.class("restart-after-" + restartKind + ": saved state at height 0")
-			} else {
-				res.class("restart-after-" + restartKind + ": saved state at height >= 1")
-			}
-		}
-		// ---- oracle 1: NewNode and Start succeed (an armed crash of THIS incarnation is not a failure)
-		if !boot.crashed && (boot.err != nil || boot.panicked != "") {
-			what := fmt.Sprintf("%v", boot.err)
-			if boot.panicked != "" {
-				what = "panic: " + boot.panicked
-			}
-			if i == 0 {
-				fail("a fresh node cannot start (%v): %s; log: %v", inc.stage.Load(), what, inc.errors())
-			} else {
-				fail("after %s the node cannot start again (%v; cursors before the restart: %v): %s; log: %v", history(), inc.stage.Load(), before, what, inc.errors())
-			}
-			inc.kill()
-			if boot.node != nil {
-				inc.abandon(boot.node, !boot.startOK)
-			}
-			return res
-		}
-		// ---- oracle 2: after the restart the three cursors agree (read right after NewNode, before anything runs)
-		if i > 0 && boot.newNodeOK {
-			if v := boot.afterNew.agree(); v != "" {
-				fail("after %s and the restart (NewNode returned): %s (before the restart: %v)", history(), v, before)
-			}
-			res.class(fmt.Sprintf("handshake-applied-blocks:%d", inc.seen("Applying block")+inc.seen("Replay last block using real app")+inc.seen("Replay last block using mock app")))
-			if inc.seen("Replay last block using mock app") > 0 {
-				res.class("handshake-mock-app-replay")
-			}
-		}
-		outcome := driveCrashed
-		target := int64(0)
-		if !boot.crashed {
-			// ---- run
-			if i == 0 {
-				target = sc.off(sc.Heights)
-			} else {
-				target = boot.afterNew.State + 2 // oracle 3: at least two further heights
-				if boot.afterNew.State == 0 {
-					target = sc.Initial + 1
-				}
-			}
-			outcome = w.drive(inc, boot.node, target, nodeProgressDeadline)
-			if outcome == driveTimeout {
-				stalled, why := nodeStalled()
-				if !stalled {
-					// the machine runs: give the node another full deadline before calling it stuck
-					nodeHeartReset()
-					outcome = w.drive(inc, boot.node, target, nodeProgressDeadline)
-					if outcome == driveTimeout {
-						if g := nodeHeartMax(); g > nodeStallGap {
-							stalled, why = true, fmt.Sprintf("a 5 ms sleep took %v during the second wait", g)
-						}
-					} else {
-						res.class("slow-progress(second deadline)")
-					}
-				}
-				if outcome == driveTimeout {
-					if stalled {
-						res.Infra = fmt.Sprintf("incarnation %d did not reach height %d within %v and the machine is stalled: %s", i, target, nodeProgressDeadline, why)
-					} else if i == 0 {
-						fail("a fresh node does not commit: stuck at block store height %d (target %d) for %v (%s); log: %v", boot.node.BlockStore().Height(), target, 2*nodeProgressDeadline, why, inc.errors())
-					} else {
-						fail("after %s the restarted node does not go on committing: stuck at block store height %d, wanted %d, for %v (%s); cursors after NewNode: %v; log: %v", history(), boot.node.BlockStore().Height(), target, 2*nodeProgressDeadline, why, boot.afterNew, inc.errors())
-					}
-					inc.kill()
-					inc.abandon(boot.node, false)
-					return res
-				}
-			}
-			if outcome == driveFailed {
-				if i == 0 {
-					fail("the consensus routine of a fresh node halted by itself at block store height %d: %s", boot.node.BlockStore().Height(), inc.consensusFailure())
-				} else {
-					fail("after %s the consensus routine of the restarted node halted by itself at block store height %d (cursors after NewNode: %v): %s", history(), boot.node.BlockStore().Height(), boot.afterNew, inc.consensusFailure())
-				}
-				inc.kill()
-				inc.abandon(boot.node, false)
-				return res
-			}
-		}
-		if i == 0 {
-			res.Ops, res.Labels = inc.ops(), append([]string(nil), inc.labels...)
-		}
-		if outcome == driveReached {
-			// ---- no crash in this incarnation: stop it cleanly
-			how := stopNode(boot.node, false)
-			inc.kill() // stragglers (the indexer may still be writing the last block's events) stop here
-			if how == "timeout" {
-				res.Infra = fmt.Sprintf("Node.Stop of incarnation %d did not return within %v\n%s", i, nodeStopDeadline, nodeStacks())
-				return res
-			}
-			if how == "hung" {
-				res.class("node-stop-deadlock(ticker stopped before the receive routine; not C05)")
-			}
-			journal(fmt.Sprintf("at the end of incarnation %d (%s)", i, history()))
-			if i == 0 {
-				res.NoCrash = true
-				if cleanRestart {
-					if err := w.copyHome(0, 1); err != nil {
-						res.Infra = err.Error()
-						return res
-					}
-					restartKind = "clean-stop"
-					if how == "hung" {
-						restartKind = "hung-stop"
-					}
-					arms = nil
-					maxInc = 2
-					continue
-				}
-			}
-			return res
-		}
-		// ---- the incarnation crashed: dispose of it, hand its files to the successor
-		sig := *inc.hit
-		res.Crashes = append(res.Crashes, sig)
-		res.CrashDBs = append(res.CrashDBs, inc.hitDB)
-		res.CrashOn = append(res.CrashOn, inc.hitOn)
-		w.tracef("inc%d crashed: %v (goroutine: %s, stage %v); last ops: %v", i, sig, inc.hitOn, inc.stage.Load(), tail(inc.labels, 8))
-		if i == 0 {
-			res.Ops = sig.Index
-		}
-		if infra := inc.abandon(boot.node, boot.crashed && boot.newNodeOK); infra != "" {
-			res.Infra = infra
-			return res
-		}
-		journal(fmt.Sprintf("after crash %s", history()))
-		if res.Violation != "" {
-			return res
-		}
-		if err := w.copyHome(i, i+1); err != nil {
-			res.Infra = err.Error()
-			return res
-		}
-		restartKind = "crash"
-	}
-	return res
-}
-
-// nodeStacks dumps the goroutines that are inside tendermint code (diagnostics for a hang).
-func nodeStacks() string {
-	buf := make([]byte, 8<<20)
-	all := string(buf[:runtime.Stack(buf, true)])
-	if f := os.Getenv("VERIF_C05_DUMP"); f != "" {
-		os.WriteFile(f, []byte(all), 0o644) //nolint
-	}
-	var out []string
-	for _, g := range strings.Split(all, "\n\n") {
-		if strings.Contains(g, "tendermint/") && !strings.Contains(g, "select (no cases)") &&
-			!strings.Contains(g, "IndexerService).OnStart.func1") && !strings.Contains(g, "killTMOnClientError") {
-			out = append(out, g)
-		}
-	}
-	if len(out) > 80 {
-		out = out[:80]
-	}
-	return strings.Join(out, "\n\n")
-}
-
-func tail(l []string, k int) []string {
-	if len(l) > k {
-		l = l[len(l)-k:]
-	}
-	return l
-}
 
 // ---------------------------------------------------------------------------------------------------------------
 // the test
 
 func TestNodeRestartCrashPoints(t *testing.T) {
-	nodeHeartStart()
-	defer func() {
-		if nodeScratchRoot != "" {
-			os.RemoveAll(nodeScratchRoot)
-		}
-	}()
+	nnode.HeartStart()
+	defer nnode.RemoveScratch()
 	defer func() {
 		t.Logf("goroutines at the end: %d", runtime.NumGoroutine())
 		if os.Getenv("VERIF_C05_DUMP") != "" {
-			nodeStacks()
+			nnode.Stacks()
 		}
 	}()
 	rapid.Check(t, func(t *rapid.T) {
-		sc := genNodeScenario(t)
+		sc := nnode.GenScenario(t)
 		second := rapid.IntRange(0, 2).Draw(t, "secondCrash") == 0
 		second2 := 0
 		if second {
-			second2 = nodePick(sc, rapid.Uint64().Draw(t, "secondCrashSalt"), 45)
+			second2 = nnode.Pick(sc, rapid.Uint64().Draw(t, "secondCrashSalt"), 45)
 		}
 		cleanRestart := rapid.IntRange(0, 3).Draw(t, "cleanRestartInDryRun") == 0
 		salt := rapid.Uint64().Draw(t, "crashSalt")
 
 		// dry run: the same scenario without a crash counts the persistence operations
-		dry := runNodeCase(sc, nil, cleanRestart)
+		dry := nnode.RunCase(sc, nil, cleanRestart)
 		if dry.Infra != "" {
 			t.Fatalf("VERIF-INFRA: dry run: %s", dry.Infra)
 		}
@@ -1298,12 +58,12 @@ func TestNodeRestartCrashPoints(t *testing.T) {
 		for _, c := range dry.Classes {
 			lib.Class(nodeTest, "dry-run:"+c)
 		}
-		k := nodePick(sc, salt, dry.Ops) // uniform over the operations of the dry run
+		k := nnode.Pick(sc, salt, dry.Ops) // uniform over the operations of the dry run
 		arms := []int{k}
 		if second {
 			arms = append(arms, second2)
 		}
-		res := runNodeCase(sc, arms, false)
+		res := nnode.RunCase(sc, arms, false)
 		if res.Infra != "" {
 			t.Fatalf("VERIF-INFRA: %s", res.Infra)
 		}
@@ -1349,36 +109,7 @@ func TestNodeRestartCrashPoints(t *testing.T) {
 		}
 		if res.Violation != "" {
 			t.Fatalf("%s violated: %s\nscenario=%v crash index=%d of %d arms=%v\nops of the dry run around the index: %v\ntrace:\n%s",
-				prop, res.Violation, sc, k, dry.Ops, arms, around(dry.Labels, k, 6), strings.Join(res.Trace, "\n"))
+				prop, res.Violation, sc, k, dry.Ops, arms, nnode.Around(dry.Labels, k, 6), strings.Join(res.Trace, "\n"))
 		}
 	})
-}
-
-// nodePick maps the drawn values to an index in [0,n), uniformly: rapid's integer and SampledFrom generators favour
-// small values (measured: operation 0 was drawn in 11% of the cases), a hash of everything drawn does not. Still a
-// pure function of the draws.
-func nodePick(sc nodeScenario, salt uint64, n int) int {
-	return int(lib.FP(sc.String(), salt, n) % uint64(n))
-}
-
-func around(l []string, k, r int) []string {
-	lo, hi := k-r, k+r+1
-	if lo < 0 {
-		lo = 0
-	}
-	if hi > len(l) {
-		hi = len(l)
-	}
-	if lo >= hi {
-		return nil
-	}
-	out := make([]string, 0, hi-lo)
-	for i := lo; i < hi; i++ {
-		mark := ""
-		if i == k {
-			mark = "*"
-		}
-		out = append(out, fmt.Sprintf("%s%d:%s", mark, i, l[i]))
-	}
-	return out
 }
